@@ -371,3 +371,137 @@ Example C10_example_rounding_tie :
   /\ PrimFloat.ltb 0x1.cp+2 0x1.c000000000001p+2 = true
   /\ PrimFloat.eqb (PrimFloat.div 0x1.cp+2 6) (PrimFloat.div 0x1.c000000000001p+2 6) = true.
 Proof. vm_compute. repeat split. Qed.
+
+(* ---------- 7. float-level hypotheses discharged (proofs/FloatMono.v, FloatMonoChamp.v) ---------- *)
+From NeatModel Require FloatMono FloatMonoChamp.
+
+(* Species.adjustFitness is monotone on non-negative raw fitness.  For two organisms of raw fitness
+   0 <= f1 <= f2 (binary64 order; f2 may be +infinity; NaN excluded by the comparisons), the same
+   species parameters (age, penalty flag, size 1 <= n < 2^63) and, when the young-species boost
+   applies, a positive finite AgeSignificance: 0 <= adjusted f1 <= adjusted f2, where overflow of
+   f * AgeSignificance to +infinity is covered (+infinity <= +infinity).  Multiplication by 0.01 or
+   AgeSignificance and division by float64(n) round to nearest, which is monotone; non-strictly:
+   see C10_example_rounding_tie. *)
+Theorem C10_fitness_adjustment_monotone :
+  forall o age debt n x1 x2,
+    (age <= 10 -> PrimFloat.ltb 0%float (o_age_sig o) = true /\ PrimFloat.ltb (o_age_sig o) infinity = true) ->
+    1 <= n < 2 ^ 63 ->
+    PrimFloat.leb 0%float (o_fit x1) = true -> PrimFloat.leb (o_fit x1) (o_fit x2) = true ->
+    PrimFloat.leb 0%float (o_fit (adjust_one o age debt n x1)) = true /\
+    PrimFloat.leb (o_fit (adjust_one o age debt n x1)) (o_fit (adjust_one o age debt n x2)) = true.
+Proof. intros o age debt n x1 x2. exact (FloatMono.adj_fit_mono o age debt n (o_fit x1) (o_fit x2)). Qed.
+Print Assumptions C10_fitness_adjustment_monotone.
+
+(* numParents = int(math.Floor(SurvivalThresh * float64(n) + 1)) >= 1 (the hypothesis of
+   C10_champion_is_maximal and of C02's survivors_ok).  For 0 <= SurvivalThresh <= 2^29 and a species
+   of fewer than 2^31 organisms the value lies in [1, 2^61], inside the range where the model's
+   int(x) is Go's int(x). *)
+Theorem C10_num_parents_positive :
+  forall o n,
+    PrimFloat.leb 0%float (o_survival o) = true -> PrimFloat.leb (o_survival o) 0x1p+29%float = true ->
+    0 <= n < 2 ^ 31 ->
+    1 <= num_parents o n <= 2 ^ 61.
+Proof. intros o n. exact (FloatMono.np_of_small (o_survival o) n). Qed.
+Print Assumptions C10_num_parents_positive.
+
+(* for every species size (also sizes no Go slice can have) and 0 <= SurvivalThresh <= 2^900 *)
+Theorem C10_num_parents_positive_any_size :
+  forall o n,
+    PrimFloat.leb 0%float (o_survival o) = true -> PrimFloat.leb (o_survival o) 0x1p+900%float = true ->
+    0 <= n -> 1 <= num_parents o n.
+Proof. intros o n. exact (FloatMono.np_of_pos (o_survival o) n). Qed.
+Print Assumptions C10_num_parents_positive_any_size.
+
+(* a bound on SurvivalThresh is needed: 2^1023 * 2 overflows, Floor(+Inf) = +Inf and the model's
+   int(+Inf) is 0 (in Go the conversion is implementation-defined) *)
+Example C10_example_num_parents_overflow : np_formula 0x1p+1023%float 2 = 0.
+Proof. vm_compute. reflexivity. Qed.
+
+(* The champion's raw fitness is maximal UP TO ROUNDING TIES, without the order-preservation
+   hypothesis of C10_champion_max_raw_partial and with the float side conditions of
+   C10_champion_is_maximal (numParents >= 1, adjusted fitness not NaN) discharged.  Hypotheses on the
+   inputs only: SurvivalThresh in [0, 2^900]; AgeSignificance positive and finite; every species
+   lists its members once and has fewer than 2^63 of them; members are not marked for elimination,
+   their raw fitness is >= 0 (not NaN; +infinity allowed) and their highest fitness is not NaN.
+   Then for the first organism [champ] of every species after prepare, with xc the organism it was
+   before: no member x of the species has an adjusted fitness strictly greater than xc's, and a
+   member with strictly greater RAW fitness has an EQUAL adjusted fitness (a rounding tie, which
+   does occur: C10_example_rounding_tie). *)
+Theorem C10_champion_raw_maximal_up_to_rounding :
+  forall o p st p1 sorted best st1,
+    prepare o p st = Ok ((p1, sorted, best), st1) ->
+    0 <= o_pop_size o ->
+    NoDup (map sp_id (p_species p)) ->
+    (forall s k, In s (p_species p) -> In k (sp_orgs s) -> exists x, hget (p_heap p) k = Ok x /\ o_species x = sp_id s) ->
+    (forall k x, hget (p_heap p) k = Ok x -> o_super x = 0) ->
+    (PrimFloat.leb 0%float (o_survival o) = true /\ PrimFloat.leb (o_survival o) 0x1p+900%float = true /\
+     PrimFloat.ltb 0%float (o_age_sig o) = true /\ PrimFloat.ltb (o_age_sig o) infinity = true) ->
+    (forall s, In s (p_species p) ->
+       NoDup (sp_orgs s) /\ zlen (sp_orgs s) < 2 ^ 63 /\
+       forall k x, In k (sp_orgs s) -> hget (p_heap p) k = Ok x ->
+                   o_elim x = false /\ PrimFloat.leb 0%float (o_fit x) = true /\ PrimFloat.is_nan (o_highest x) = false) ->
+    forall sp champ, In sp (p_species p1) -> first_org (p_heap p1) sp = Ok champ ->
+      exists s0 xc, In s0 (p_species p) /\ sp_id s0 = sp_id sp /\ In (o_key champ) (sp_orgs s0) /\
+        hget (p_heap p) (o_key champ) = Ok xc /\ o_genome champ = o_genome xc /\
+        forall k x, In k (sp_orgs s0) -> hget (p_heap p) k = Ok x ->
+          PrimFloat.ltb (o_fit (adjusted o s0 xc)) (o_fit (adjusted o s0 x)) = false /\
+          (PrimFloat.ltb (o_fit xc) (o_fit x) = true ->
+           PrimFloat.eqb (o_fit (adjusted o s0 xc)) (o_fit (adjusted o s0 x)) = true).
+Proof. exact FloatMonoChamp.champion_raw_up_to_rounding. Qed.
+Print Assumptions C10_champion_raw_maximal_up_to_rounding.
+
+(* Consequently, through NextEpoch: let xb be strictly fitter (raw fitness) than every other member
+   of its species s0.  Then the champion's adjusted fitness EQUALS xb's; the champion is xb or a
+   less fit member that ties with xb after rounding; with a quota above five the champion's genome
+   is in the next population; and if no other member ties with xb after rounding, the champion IS
+   xb (so then xb's genome survives). *)
+Theorem C10_best_of_species_survives_up_to_rounding :
+  forall o gen p x st p' x' st',
+    next_epoch o gen p x st = Ok ((p', x'), st') ->
+    pop_ok p ->
+    (PrimFloat.leb 0%float (o_survival o) = true /\ PrimFloat.leb (o_survival o) 0x1p+900%float = true /\
+     PrimFloat.ltb 0%float (o_age_sig o) = true /\ PrimFloat.ltb (o_age_sig o) infinity = true) ->
+    (forall s, In s (p_species p) ->
+       NoDup (sp_orgs s) /\ zlen (sp_orgs s) < 2 ^ 63 /\
+       forall k x, In k (sp_orgs s) -> hget (p_heap p) k = Ok x ->
+                   o_elim x = false /\ PrimFloat.leb 0%float (o_fit x) = true /\ PrimFloat.is_nan (o_highest x) = false) ->
+    exists p1 sorted best st1,
+      prepare o p st = Ok ((p1, sorted, best), st1) /\
+      forall s0 kb xb sp champ,
+        In s0 (p_species p) -> In kb (sp_orgs s0) -> hget (p_heap p) kb = Ok xb ->
+        (forall k y, In k (sp_orgs s0) -> hget (p_heap p) k = Ok y -> k <> kb -> PrimFloat.ltb (o_fit y) (o_fit xb) = true) ->
+        In sp (p_species p1) -> sp_id sp = sp_id s0 -> first_org (p_heap p1) sp = Ok champ ->
+        exists xc, In (o_key champ) (sp_orgs s0) /\ hget (p_heap p) (o_key champ) = Ok xc /\ o_genome champ = o_genome xc /\
+          PrimFloat.eqb (o_fit (adjusted o s0 xc)) (o_fit (adjusted o s0 xb)) = true /\
+          (o_key champ = kb \/ PrimFloat.ltb (o_fit xc) (o_fit xb) = true) /\
+          (sp_exp sp > 5 -> refs_ok (o_genome xc) ->
+           exists b, In (o_key b) (p_orgs p') /\ hget (p_heap p') (o_key b) = Ok b /\ exists n, o_genome b = with_id (o_genome xc) n) /\
+          ((forall k y, In k (sp_orgs s0) -> hget (p_heap p) k = Ok y -> k <> kb ->
+                        PrimFloat.eqb (o_fit (adjusted o s0 y)) (o_fit (adjusted o s0 xb)) = false) ->
+           o_key champ = kb /\ xc = xb).
+Proof. exact FloatMonoChamp.best_of_species_up_to_rounding. Qed.
+Print Assumptions C10_best_of_species_survives_up_to_rounding.
+
+(* the hypotheses of the two theorems above hold for the run of C10_example_rounding_tie (fitness
+   7, 7+1ulp, 1, 2, 3, 4 in one species), where the tie is real *)
+Example C10_example_up_to_rounding_hyps :
+  match new_population (ex_opts 6 15 0) ex_start ex_s0 with
+  | Ok (p, s) =>
+    match set_fitness (p_heap p) (p_orgs p) [0x1.cp+2; 0x1.c000000000001p+2; 1; 2; 3; 4]%float with
+    | Ok h =>
+      PrimFloat.leb 0 (o_survival (ex_opts 6 15 0)) && PrimFloat.leb (o_survival (ex_opts 6 15 0)) 0x1p+900 &&
+      PrimFloat.ltb 0 (o_age_sig (ex_opts 6 15 0)) && PrimFloat.ltb (o_age_sig (ex_opts 6 15 0)) infinity &&
+      forallb (fun s => forallb (fun k => match hget h k with
+                                          | Ok x => negb (o_elim x) && PrimFloat.leb 0 (o_fit x) && negb (PrimFloat.is_nan (o_highest x))
+                                          | _ => false end) (sp_orgs s)) (p_species p) &&
+      negb (Nat.eqb (length (p_species p)) 0)
+    | _ => false end
+  | _ => false end = true.
+Proof. vm_compute. reflexivity. Qed.
+
+(* monotonicity needs fitness >= 0: raw fitness -1 is adjusted to 0.0001/n, above the adjusted value
+   of the larger raw fitness 0 *)
+Example C10_example_negative_fitness_not_monotone :
+  forall o, PrimFloat.ltb (-1)%float 0%float = true /\
+            PrimFloat.ltb (FloatMono.adj_fit o 20 0 4 0%float) (FloatMono.adj_fit o 20 0 4 (-1)%float) = true.
+Proof. exact FloatMonoChamp.adj_fit_negative_not_monotone. Qed.
